@@ -73,6 +73,8 @@ def scenario(variant, tier):
             kinds += ["ign-alter", "ign-delete", "ign-add"]
         if tier != "quick":
             kinds += ["alter+add", "delete+alter", "delete+add"]
+        if nested:
+            kinds.append("alter+add-same-relative-path")
         kind = sym.choose("mutation", kinds)
         altered, removed, added = [], [], []
         parts = kind.split("+")
@@ -102,6 +104,15 @@ def scenario(variant, tier):
                 b.delete(d)
                 removed.append(d)
                 b.note("rmdir %s" % d)
+            elif part == "add-same-relative-path":
+                # a new file in a nested history whose history-relative path equals that of the altered file in another history
+                rel_alt = cm.rel_to(altered[0], cm.owner_history(altered[0], cm.history_roots(b, "R") + ["R"], "R")) if altered else "s.txt"
+                for hr in cm.history_roots(b, "R"):
+                    f = posixpath.join(hr, rel_alt)
+                    if not b.exists(f):
+                        b.mkfile(f, 78)
+                        added.append(f)
+                        b.note("add %s" % f)
             elif part == "add":
                 where = sym.choose("add_dir%d" % pi, sorted(d for d in t.dirs if b.exists(d)))
                 f = posixpath.join(where, "new file.bin")
